@@ -22,8 +22,15 @@ def _replay(prop, path):
         print('replay file has no vector (model-level violation): rerun the check')
         return 2
     rep = Report(prop, 'quick')
-    j = SemJudge({'prop': prop})
     ctx = payload['vector']
+    if isinstance(ctx.get('vector'), dict) and ctx['vector'].get('mode') in ('exlit', 'attr', 'docref'):
+        from litcheck import LitJudge
+        j = LitJudge({'prop': prop})
+        j.on_vec('VEC', ctx['vector'])
+        rep.states = rep.transitions = 1
+        rep.add_judged({'judged': j.judged, 'violations': j.violations, 'samples': j.samples, 'skipped': j.skipped, 'kinds': j.kinds})
+        return rep.finish()
+    j = SemJudge({'prop': prop})
     if prop == 'C11' and 'other_specs' in ctx:
         # re-run both layouts
         from semcheck import canon, project_api, backend_digest
@@ -44,6 +51,23 @@ def _replay(prop, path):
     rep.add_judged({'judged': j.judged, 'violations': j.violations, 'samples': j.samples,
                     'skipped': j.skipped, 'kinds': j.kinds})
     return rep.finish()
+
+
+LIT_INVS = ['Total', 'DeclaredDefaultsFit', 'NullIffNullable', 'ForeignNeedsImport']
+LIT_SHARDS = {'exlit': 4, 'attr': 2, 'docref': 16}
+
+
+def lit_stage(rep, prop, modes):
+    """StoneLitMC: example expressions x field types, route attribute values x schema declarations, doc references x sites."""
+    for mode in modes:
+        nsh = LIT_SHARDS[mode]
+        res = run_shards('StoneLitMC',
+                         lambda s: dict(spec='Spec', constants={'Mode': '"%s"' % mode, 'Shard': s, 'NShards': nsh, 'EmitVectors': True},
+                                        invariants=LIT_INVS, constraints=['InShard', 'Emit']),
+                         list(range(nsh)), 'litcheck.LitJudge', {'prop': prop}, tlc_kwargs={'timeout': 3000})
+        agg = merge(res)
+        rep.add_tlc('StoneLitMC/' + mode, agg, {'Mode': mode})
+        rep.add_judged(agg)
 
 
 def _run(prop, tier, replay, text, quick_frac):
@@ -74,6 +98,8 @@ def _run(prop, tier, replay, text, quick_frac):
         rep.add_tlc('StoneSemMC/' + scen, agg, {'Scenario': scen, 'OrderMode': mine[0][3],
                                                 'shards': [j[1] for j in mine], 'of': mine[0][2]})
         rep.add_judged(agg)
+    if prop == 'C01':
+        lit_stage(rep, 'C01', ('exlit', 'attr', 'docref'))
     if prop == 'C11':
         # layout: comments, blank lines, trailing whitespace/comments, broken parenthesised lists.  StoneLex proves
         # (TLC, LayoutInvariance) that the line machine OpLex ignores them; here the real Lexer is bound to OpLex.
@@ -109,7 +135,9 @@ def check_c01(tier, replay=None):
                 'scenario universes A (struct inheritance, field clashes), B (aliases, nullability), C (namespaces, imports), '
                 'D (unions open/closed, tags), E (enumerated subtypes), R (routes, versions, deprecation): every instance = a '
                 'combination of legal and rule-violating choices at every site; each authored in 3 orders x 3 file splits x 2 file '
-                'orders (thorough: all instances); verdict of specs_to_ir compared with StoneSem!WellFormed, both directions', 2)
+                'orders (thorough: all instances); verdict of specs_to_ir compared with StoneSem!WellFormed, both directions; plus StoneLitMC: 19 field types x 30 example '
+                'expressions (ExFits), 15 route-attribute declarations x 14 values incl. omitted (AttrFits), 6 doc-reference tags x 776 '
+                'payload shapes x 4 sites (RefFits): compile succeeds iff the documented rule accepts, refusals are spec errors', 2)
 
 
 def check_c02(tier, replay=None):
